@@ -748,6 +748,8 @@ func (fr *Frame) lookup(x *ssa.Lookup, st *State, reach string) Val {
 	has, val := c.mapRead(st, mt, mref, k)
 	elemT := mt.Underlying().(*types.Map).Elem()
 	v := Val{T: elemT, Term: c.smt.define("mv", c.sortOf(elemT), ite(has, val, c.zero(elemT)))}
+	c.heapTyped(elemT, v.Term)
+	c.closedHeap(st, elemT, v.Term, 0)
 	if x.CommaOk {
 		return Val{T: x.Type(), Tuple: []Val{v, {T: types.Typ[types.Bool], Term: c.smt.define("mh", "Bool", has)}}}
 	}
@@ -856,5 +858,6 @@ func (fr *Frame) next(x *ssa.Next, st *State, reach string) Val {
 	}
 	vv := Val{T: it.ValT, Term: c.smt.define("rng.v", c.sortOf(it.ValT), val)}
 	c.smt.assume(implies(okT, c.typeFacts(it.ValT, vv.Term)), "")
+	c.closedHeap(st, it.ValT, vv.Term, 0)
 	return Val{T: x.Type(), Tuple: []Val{{T: types.Typ[types.Bool], Term: okT}, kv, vv}}
 }
